@@ -101,6 +101,7 @@ def run(tier, seed):
     from props import _inproc
     _inproc.add(stats, fails, "decode_defect", seed + 1, 8000 if tier == "quick" else 800000)
     _inproc.add(stats, fails, "decode_raw", seed + 1, 60000 if tier == "quick" else 6000000)
+    _inproc.add(stats, fails, "decode_sym", seed + 1, 8000 if tier == "quick" else 800000)
     if tier != "quick":
         fz = _inproc.fuzz("decode_raw", seed, runs=20000000, max_total_time=900)
         stats.extra["libfuzzer-execs"] += fz["execs"]
